@@ -1532,6 +1532,8 @@ def run_conc(rep, dh, wd, keys, rng, n_steered, n_soak, soak_size, gomaxprocs, w
         for _ in range(n_deadline):
             parks, cops = conc.deadline_soak(rng.fork(), accts, 40)
             scen.append(("deadline-soak", [], parks, cops, 0))
+            pre, cops = conc.dyn_soak(rng.fork(), accts, 150)
+            scen.append(("dyn-soak", pre, "-", cops, 0))
         lines = []
         for kind, prefix, parks, cops, workers in scen:
             lines += ["reset"] + cfg + conc.scenario_lines(prefix, parks, cops, workers)
@@ -1562,7 +1564,7 @@ def run_conc(rep, dh, wd, keys, rng, n_steered, n_soak, soak_size, gomaxprocs, w
             ops_seq = prefix + [op for _, op in cops]
             impl_seq = out[1:1 + len(prefix)] + [r_[2] for r_ in res]
             slash_h.append({"cfg": cfg, "ops": ops_seq, "impl": impl_seq, "accts": accts, "scen": (kind, prefix, parks, cops, workers)})
-            if want_lin and kind not in ("soak", "cross-soak", "deadline-soak"):
+            if want_lin and kind not in ("soak", "cross-soak", "deadline-soak", "dyn-soak"):
                 jl += ["reset"] + cfg + prefix + ["lin-begin"]
                 for (d, op), (ti, tr, rs) in zip(cops, res):
                     jl.append("lin-op %d %d %s %s" % (ti, tr, rs.replace(" ", "+"), op))
@@ -2047,6 +2049,61 @@ def c20(rep, tier, seed, wd, replay):
             restarts += 1
         else:
             i = len(msgs)
+    # (c2) the interceptors every request of every service passes through (built once per server), called from 32
+    # goroutines at full speed in-process: a panic there is a panic of the daemon (nothing recovers it)
+    if REPLAY is None or "hammer" in REPLAY:
+        from common import sh as _sh
+        rc_, ho, he = _sh([dh, "hammer", "400" if tier != "thorough" else "3000"], timeout=600)
+        rep.cov["interceptor_hammer"] = ho.split("\n")[:6]
+        for l_ in ho.splitlines():
+            rep.count("hammer|" + l_.split()[1] if len(l_.split()) > 1 else l_, True)
+            if l_.startswith("PANIC"):
+                rep.violation("interceptor-panic-under-concurrency", "an interceptor panics when requests are in flight concurrently (in the daemon this kills the process): " + l_,
+                              {"hammer": l_, "how": "dh hammer <ms>: 32 goroutines calling the interceptor the server builds once"})
+                found = True
+        if rc_ != 0 and not ho.strip():
+            rep.broken.append(("hammer-engine", he[-1500:], False))
+    # (d) many valid requests in flight at once.  A daemon built with Go's race detector serves a short burst: a data race
+    # on the request path (shared state touched by concurrent requests without synchronisation) is how "valid requests
+    # crash the daemon" starts, and the detector sees it long before the crash happens; thorough: a long burst against
+    # the ordinary daemon, which must survive it.
+    if REPLAY is None:
+        from common import build_harness_race
+        from wire import msg as _msg, fld as _fld, LEN as _LEN
+        bl = ["burst:%d:8:8:/v1.Lister/ListAccounts client-test01 %s" % (1500 if tier != "thorough" else 6000, _msg(_fld(1, _LEN, b"Wallet 1")).hex()),
+              "burst:%d:8:8:/v1.Signer/Sign client-test02 %s" % (1000 if tier != "thorough" else 4000,
+                                                               _msg(_fld(2, _LEN, b"Wallet 2/Account 0"), _fld(3, _LEN, bytes(32)), _fld(4, _LEN, bytes([2]) + bytes(31))).hex()),
+              "burst:%d:8:8:/v1.DKG/Abort client-test03 %s" % (800 if tier != "thorough" else 3000, _msg(_fld(1, _LEN, b"Wallet 3/none")).hex())]
+        try:
+            dr = wire.Daemon(build_harness_race(wd), wd)
+            p_ = __import__("subprocess").run([dh, "wire", dr.port, REPO], input="\n".join(bl) + "\n", text=True, stdout=__import__("subprocess").PIPE,
+                                             stderr=__import__("subprocess").PIPE, env=__import__("common").GOENV, timeout=900)
+            rerr = dr.stop()
+            rep.cov["race_detector_burst"] = [o_.split()[0] for o_ in p_.stdout.splitlines()]
+            races = rerr.count("WARNING: DATA RACE")
+            rep.cov["race_detector_reports"] = races
+            rep.count("race-burst", True)
+            if races:
+                i_ = rerr.index("WARNING: DATA RACE")
+                rep.broken.append(("tie:race-freedom(the daemon's request path under concurrent valid requests, Go race detector)",
+                                   "%d data race report(s); first:\n%s" % (races, rerr[i_:i_ + 2500]), found))
+            elif any("DEAD" in o_ for o_ in p_.stdout.splitlines()):
+                rep.violation("daemon-crash-burst", "the daemon stopped answering under a burst of concurrent valid requests", {"burst": bl, "stderr": rerr[-1500:]})
+                found = True
+        except RuntimeError as ex_:
+            rep.broken.append(("race-daemon-start", str(ex_)[-1500:], False))
+        if tier == "thorough":
+            dl = wire.Daemon(dh, wd)
+            lb = "burst:60000:32:8:/v1.Lister/ListAccounts client-test01 %s" % _msg(_fld(1, _LEN, b"Wallet 1")).hex()
+            p_ = __import__("subprocess").run([dh, "wire", dl.port, REPO], input=lb + "\n", text=True, stdout=__import__("subprocess").PIPE,
+                                             stderr=__import__("subprocess").PIPE, env=__import__("common").GOENV, timeout=900)
+            lerr = dl.stop()
+            rep.cov["long_burst"] = p_.stdout.strip()[:120]
+            if "DEAD" in p_.stdout or not p_.stdout.strip():
+                reason = [l for l in lerr.splitlines() if "fatal error" in l or l.startswith("panic")]
+                rep.violation("daemon-crash-burst", "the daemon died under a one-minute burst of concurrent valid requests (%s)" % (reason[0] if reason else "no longer alive"),
+                              {"burst": [lb], "stderr": lerr[-1500:]})
+                found = True
     rep.cov["wire_messages"] = total
     rep.cov["wire_messages_answered_with_a_response"] = answered
     rep.cov["traces_validated_against_impl"] = total + len(hs)
@@ -2137,7 +2194,7 @@ def c19(rep, tier, seed, wd, replay):
         rep.broken.append(("correspondence:tls(transport model with the regenerated client-auth mode vs daemon)", json.dumps(first_bad), found))
 
 
-DKG_DIFF_OPS_C14 = ("iatt", "iatts", "iatts2", "iprop")
+DKG_DIFF_OPS_C14 = ("iatt", "iattx", "iatts", "iatts2", "iprop")
 
 
 def c14(rep, tier, seed, wd, replay):
@@ -2475,6 +2532,16 @@ def c16(rep, tier, seed, wd, replay):
         for i, l in enumerate(r_["lines"]):
             f = l.split()
             o = r_["impl"][i]
+            if f[0] == "msglog" and i + 1 < len(r_["lines"]) and r_["lines"][i + 1].startswith("parts "):
+                parts_ = set(r_["lines"][i + 1].split()[1].split(","))
+                for tok in o.split():
+                    if tok.startswith("contribute:"):
+                        dst = tok.split(">")[1]
+                        rep.dist("contribution_target", "listed" if dst in parts_ else "NOT-LISTED")
+                        if dst not in parts_:
+                            rep.violation("share-sent-to-non-participant", "a contribution (carrying the share computed for a listed participant) was sent to an instance that is not a participant",
+                                          {"scenario": r_["tag"], "lines": r_["lines"][:i + 1], "impl": r_["impl"][:i + 1]})
+                            found = True
             if f[0] == "shareowner":
                 rep.dist("shareowner", o)
                 if o != "share-for=%s" % f[2]:
